@@ -34,10 +34,11 @@ class AOpaque:
         return f"<opaque {self.what}>"
 
 class AInt:
-    __slots__ = ('v', 'bits')
-    def __init__(self, v=None, bits=None):
+    __slots__ = ('v', 'bits', 'rng')
+    def __init__(self, v=None, bits=None, rng=None):
         self.v = v
         self.bits = None if bits is None else list(bits)
+        self.rng = rng          # (lo, hi) when only a range is known (e.g. int.bit_length() of an abstract value)
     def __repr__(self):
         return f"AInt({self.v if self.v is not None else B.show_vec(self.bits) if self.bits is not None else '?'})"
     def vec(self):
@@ -954,9 +955,12 @@ class Interp:
             # an abstract non-negative int against a constant: decided when the constant lies outside [all unknown bits 0, all unknown bits 1]
             x, c, flip = (a, b.v, False) if a.v is None else (b, a.v, True)
             vec = x.vec()
-            if vec is not None and isinstance(c, int):
-                lo = sum((1 if bit == 1 else 0) << k for k, bit in enumerate(vec))
-                hi = sum((0 if bit == 0 else 1) << k for k, bit in enumerate(vec))
+            if (vec is not None or x.rng is not None) and isinstance(c, int):
+                if vec is not None:
+                    lo = sum((1 if bit == 1 else 0) << k for k, bit in enumerate(vec))
+                    hi = sum((0 if bit == 0 else 1) << k for k, bit in enumerate(vec))
+                else:
+                    lo, hi = x.rng
                 o = type(op)
                 if flip:
                     o = {ast.Lt: ast.Gt, ast.LtE: ast.GtE, ast.Gt: ast.Lt, ast.GtE: ast.LtE}[o]
@@ -1242,6 +1246,14 @@ class Interp:
             n = f.id
             if kw and n not in ('sorted', 'int', 'bytes', 'max', 'min', 'divmod') and n in ('len', 'range', 'bytearray', 'reversed', 'list', 'sum', 'enumerate', 'zip'):
                 raise Unknown(f"{n}() with keyword arguments at line {e.lineno}")
+            if n == 'map' and len(e.args) == 2 and not kw:
+                out_ = []
+                for el in self.iterate(args[1], e):
+                    env2 = dict(env); env2['__map_item'] = el
+                    c_ = ast.Call(func=e.args[0], args=[ast.Name(id='__map_item', ctx=ast.Load())], keywords=[])
+                    ast.copy_location(c_, e); ast.fix_missing_locations(c_)
+                    out_.append(self.expr(c_, env2))
+                return AList(out_)
             if n == 'sorted':
                 if set(kw) - {'reverse'} or len(args) != 1:
                     raise Unknown(f"sorted() with key= or extra arguments at line {e.lineno}")
@@ -1252,6 +1264,11 @@ class Interp:
                     return AList([AInt(k) if isinstance(k, int) else AStr([('lit', k)]) for k in sorted(args[0].items, reverse=rev)])
                 if isinstance(args[0], AList) and all(isinstance(x, AInt) and x.v is not None for x in args[0].items):
                     return AList(sorted(args[0].items, key=lambda x: x.v, reverse=rev))
+                src_ = args[0].items if isinstance(args[0], AList) else (list(args[0]) if isinstance(args[0], (list, tuple)) else None)
+                if src_ is not None and all(isinstance(x, (tuple, list)) and len(x) >= 1 and isinstance(x[0], AInt) and x[0].v is not None for x in src_) \
+                        and len({x[0].v for x in src_}) == len(src_):
+                    # pairs with distinct concrete first elements (dict.items()): the order is decided by the first element alone
+                    return AList(sorted(src_, key=lambda x: x[0].v, reverse=rev))
                 raise Unknown(f"sorted() of {type(args[0]).__name__} at line {e.lineno}")
             if n == 'vars' and len(args) == 1 and isinstance(args[0], AObj):
                 return ADictOf(args[0])
@@ -1545,6 +1562,15 @@ class Interp:
                     if i is None or not o.items:
                         raise Unknown(f"list.pop at line {e.lineno}")
                     return o.items.pop(i)
+            if isinstance(o, AInt) and m == 'bit_length' and not args:
+                if o.v is not None:
+                    return AInt(int(o.v).bit_length())
+                vec_ = o.vec()
+                if vec_ is not None:
+                    vec_ = B.trim(vec_)
+                    ones = [k for k, b_ in enumerate(vec_) if b_ == 1]
+                    return AInt(None, None, ((max(ones) + 1) if ones else 0, len(vec_) if any(b_ != 0 for b_ in vec_) else 0))
+                return AInt(None, None)
             if isinstance(o, AInt) and m == 'to_bytes':
                 n = args[0] if args else kw.get('length')
                 order = args[1] if len(args) > 1 else kw.get('byteorder')
@@ -1625,6 +1651,17 @@ class Interp:
                     o.items.extend(x.items if isinstance(x, ABytes) else [self.int_to_byte(v) for v in self.iterate(x, e)]); return None
                 if m == 'clear' and not args:
                     o.items.clear(); return None
+                if m == 'reverse' and not args:
+                    o.items.reverse(); return None
+                if m == 'insert' and len(args) == 2 and isinstance(args[0], AInt) and args[0].v is not None:
+                    o.items.insert(args[0].v, self.int_to_byte(args[1])); return None
+                if m == 'pop' and len(args) <= 1 and (not args or (isinstance(args[0], AInt) and args[0].v is not None)):
+                    if not o.items:
+                        raise PyError('IndexError', e.lineno)
+                    return self.byte_to_int(o.items.pop(args[0].v if args else -1))
+            # a method that changes a modelled container and is not modelled must not be skipped silently
+            if isinstance(o, (ABytes, AList, ADict)) and m in ('reverse', 'insert', 'pop', 'remove', 'sort', 'clear', 'update', 'popitem', 'extend', 'append', 'add', 'discard', 'setdefault', '__setitem__', '__delitem__'):
+                raise Unknown(f"{type(o).__name__}.{m}() with these arguments is not modelled (line {e.lineno})")
             if isinstance(o, AStr):
                 if m in ('upper', 'lower'):
                     return AStr([(('lit', getattr(p[1], m)()) if p[0] == 'lit' else p) for p in o.pieces])
